@@ -9,7 +9,7 @@ RULE = ("the real TaskPool (cfg window) with tasks that start and then do not fi
         "bursts of 1..8 dispatches after the workers went idle, explored against ALL interleavings of the extracted pool model "
         "(the implementation's counters and started-task count must be one of the model's outcomes); bursts of 16, 64, 200 and "
         "two-phase scripts judged by the oracle (every dispatched task has started while none has finished; no task runs twice; "
-        "thread counter = live threads); and the full server: N in {1,4,5,16,64,300 (thorough: 400 TCP, 1200)} keep-alive connections opened at once over Unix "
+        "thread counter = live threads); and the full server: N in {1,4,5,16,64,300 (thorough: 400 TCP, 1200)} keep-alive connections opened at once over Unix (also behind connections that were accepted earlier and have not sent a byte) "
         "and TCP, each must be answered while all stay open; non-trivial = burst > number of idle workers or N > 4")
 ASSUMPTIONS = ["an awake thread is eventually scheduled (observation waits until nothing changes for 100 ms)",
                "the process's file-descriptor limit (raised to the hard limit by the harness) exceeds twice the number of connections plus the baseline"]
@@ -41,6 +41,10 @@ def gen(tier, rng):
             yield "bs u %d %d" % (n, rng.choice([1, 3])), {"server_burst": n}
         for n in (5, 16):
             yield "bs t %d 2" % n, {"server_burst": n}
+    # connections that are open but have not sent a byte yet (before the others in accept order)
+    for n, k in ((3, 1), (6, 2), (5, 6)):
+        yield "bs u %d 2 silent=%d" % (n, k), {"server_burst": n, "silent": k}
+    yield "bs t 4 2 silent=1", {"server_burst": 4, "silent": 1}
     # far above any plausible built-in limit
     yield "bs u 300 3", {"server_burst": 300}
     if tier != "quick":
